@@ -933,6 +933,29 @@ func checkC17(c *Ctx) {
 		C := genTree(c.R, 1+c.R.Intn(3), 3, leafGen)
 		all := And(And(A, B), C)
 		obj := genObject(c.R, all, ObjOpts{AbsentPct: 12, NilPct: 5, NullParent: 10, NonObjMid: 3})
+		if c.R.Chance(1, 15) {
+			// a path of three or more steps whose last container is a map of another Go type (map[string]string) holding
+			// the last step's key: whatever the engine does with it, it must do the same on both sides of every law
+			var ls []*Node
+			all.Leaves(&ls)
+			for _, lf := range ls {
+				if len(lf.Path) >= 3 && !obj.Nil {
+					lf.Path[len(lf.Path)-1] = pick(c.R, []string{"env", "a", "b", "c", "x", "k"})
+					cur := obj
+					for _, seg := range lf.Path[:len(lf.Path)-2] {
+						nx := cur.Get(seg)
+						if nx == nil || nx.K != AVObj {
+							nx = avObj()
+							cur.Set(seg, nx)
+						}
+						cur = nx
+					}
+					cur.Set(lf.Path[len(lf.Path)-2], &AV{K: AVOther, Tag: 16})
+					c.count("typed_string_map_as_last_container")
+					break
+				}
+			}
+		}
 		m := obj.GoMap()
 		canFail := func(t *Node) bool {
 			var ls []*Node
